@@ -522,3 +522,57 @@ def sibling_details(check: Check, repo: Repo, rule: str = "SIBLING-DETAILS") -> 
     for fn in (coer, vali):
         check.ob(rule, fn, f"fragment variable scope chosen by membership in fragment_variable_values.<attr> ({fn.name})", ok,  # type: ignore[attr-defined]
                  f"coercion uses {sorted(a)}, validation uses {sorted(b)}")
+
+
+# -- integers never travel through a float ------------------------------------------------------
+
+
+def exact_int(check: Check, repo: Repo, rule: str = "EXACT-INT") -> None:
+    check.rule(
+        rule,
+        "in type/scalars.py a function that produces an integer (return annotation int) or the digits of "
+        "one (the ID coercers, annotation str) never computes its result from `float(<argument>)`: Python "
+        "ints are unbounded and float() rounds above 2**53, so an ID such as 9007199254740993 would be "
+        "emitted as a different number without any error",
+    )
+    mod = repo.mod("type.scalars")
+    n = 0
+    for fn in mod.functions():
+        if parent(fn) is not mod.tree:
+            continue
+        ret = unparse(fn.returns) if fn.returns is not None else ""
+        is_int = ret == "int"
+        is_id = ret == "str" and "id" in fn.name.split("_")
+        if not (is_int or is_id):
+            continue
+        params = {a.arg: (unparse(a.annotation) if a.annotation is not None else "") for a in fn.args.args}
+        tainted: set[str] = set()
+
+        def lossy(e: ast.AST) -> ast.Call | None:
+            for c in ast.walk(e):
+                if isinstance(c, ast.Call) and isinstance(c.func, ast.Name) and c.func.id == "float" and c.args:
+                    src = {x.id for x in ast.walk(c.args[0]) if isinstance(x, ast.Name)}
+                    if any(s in tainted or (s in params and params[s] != "str") for s in src):
+                        return c
+            return None
+
+        changed = True
+        while changed:
+            changed = False
+            for s in walk_body(fn):
+                if isinstance(s, ast.Assign) and len(s.targets) == 1 and isinstance(s.targets[0], ast.Name):
+                    names = {x.id for x in ast.walk(s.value) if isinstance(x, ast.Name)}
+                    if (lossy(s.value) is not None or names & tainted) and s.targets[0].id not in tainted:
+                        tainted.add(s.targets[0].id)
+                        changed = True
+        rets = [r for r in walk_body(fn) if isinstance(r, ast.Return) and r.value is not None]
+        bad = []
+        for r in rets:
+            names = {x.id for x in ast.walk(r.value) if isinstance(x, ast.Name)}
+            if lossy(r.value) is not None or names & tainted:
+                bad.append(r)
+        n += 1
+        check.ob(rule, fn, f"{fn.name} -> {ret}", not bad,
+                 "result computed from the argument itself" if not bad else
+                 f"`{node_text(bad[0], 60)}` depends on float(<argument>) ({sorted(tainted)}): integers above 2**53 are silently rounded")
+    check.floor(rule, 6, "integer / ID producing functions in type/scalars.py")
